@@ -73,7 +73,7 @@ Proof.
   intros Hr H. unfold translate in H.
   destruct (ch <? 63); [discriminate|].
   destruct (length (pal s) =? 0)%nat; [discriminate|].
-  bind_inv H. bind_inv H. bind_inv H. inversion H; subst; clear H. cbn [rows set_cur set_rows].
+  bind_inv H. bind_inv H. destruct (_ || _); [discriminate|]. bind_inv H. inversion H; subst; clear H. cbn [rows set_cur set_rows].
   apply plot_Inv4.
   match goal with |- Inv4 (if ?b then _ else _) => destruct b end; [|exact Hr].
   apply resize_Forall; [exact Hr|apply len4_zeros].
@@ -116,7 +116,7 @@ Lemma finish_size_Inv4 s s' : Inv4 (rows s) -> finish_size s = Ok s' -> Inv4 (ro
 Proof.
   intros Hr H. unfold finish_size in H. cbv zeta in H.
   destruct ((length (nums s) <? 2)%nat || (4 <? length (nums s))%nat); [discriminate|].
-  destruct (nums s) as [|v [|h rest]]; try discriminate.
+  destruct (nums s) as [|v [|h rest]]; try discriminate. destruct (existsb _ rest); [discriminate|].
   inversion H; subst; clear H. cbn [rows set_st]. unfold declare.
   destruct rest as [|a [|b [|c t]]]; cbn [rows set_scale set_rows]; try exact Hr.
   - apply resize_Forall; [exact Hr|apply len4_nil].
@@ -135,7 +135,7 @@ Proof.
     destruct (ch =? 59); [inversion H; subst; exact Hr|].
     bind_inv H. eapply parse_sixel_data_Inv4; [|exact H]. eapply finish_size_Inv4; eassumption.
   - destruct (is_digit ch); [inversion H; subst; exact Hr|].
-    destruct (nums s) as [|i t]; [discriminate|].
+    destruct (nums s) as [|i t]; [discriminate|]. destruct (MAX_SIXEL_DIMENSION <? i); [discriminate|].
     bind_inv H. inversion H; subst. cbn [rows set_st]. eapply repeat_data_Inv4; eassumption.
 Qed.
 
@@ -203,7 +203,7 @@ Proof.
   intros Hh H. unfold translate in H.
   destruct (ch <? 63); [discriminate|].
   destruct (length (pal s) =? 0)%nat; [discriminate|].
-  bind_inv H. bind_inv H. bind_inv H. inversion H; subst; clear H. cbn [rows hset st set_cur set_rows].
+  bind_inv H. bind_inv H. destruct (_ || _); [discriminate|]. bind_inv H. inversion H; subst; clear H. cbn [rows hset st set_cur set_rows].
   rewrite plot_length, Hh. cbn [andb]. repeat split; try assumption.
   match goal with |- context [if height (rows s) <? ?z then height (rows s) else ?z] =>
     destruct (height (rows s) <? z) eqn:Elt end.
@@ -248,7 +248,7 @@ Proof.
       rewrite C; try rewrite Ss, Est; discriminate.
   - contradiction.
   - destruct (is_digit ch); [inversion H; subst; cbn; rewrite Est; repeat split; auto; discriminate|].
-    destruct (nums s) as [|i t]; [discriminate|].
+    destruct (nums s) as [|i t]; [discriminate|]. destruct (MAX_SIXEL_DIMENSION <? i); [discriminate|].
     bind_inv H. inversion H; subst. cbn [rows hset st set_st].
     destruct (repeat_data_height _ _ _ _ Hch Hh E) as (A & B). repeat split; auto. discriminate.
 Qed.
@@ -284,8 +284,126 @@ Proof.
   intros H Hn. unfold finish_size in H. cbv zeta in H.
   destruct ((length (nums s) <? 2)%nat || (4 <? length (nums s))%nat) eqn:E; [discriminate|].
   apply orb_false_iff in E. destruct E as [_ E]. apply Nat.ltb_ge in E.
-  destruct (nums s) as [|v [|h [|a [|b [|c t]]]]]; cbn [length] in *; try lia; inversion H; subst; clear H;
+  destruct (nums s) as [|v [|h [|a [|b [|c t]]]]]; cbn [length] in *; try lia;
+    (match type of H with (if ?c then _ else _) = _ => destruct c; [discriminate|] end); inversion H; subst; clear H;
     unfold declare; cbn [hset st rows set_st set_scale set_rows last]; repeat split; unfold height; rewrite resize_length; lia.
+Qed.
+
+(* ---- the size limit (after the fix): no decoded image is wider or taller than MAX_SIXEL_DIMENSION ---- *)
+Definition InvB (r : list (list N)) : Prop :=
+  height r <= MAX_SIXEL_DIMENSION /\ Forall (fun l => Z.of_nat (length l) <= 4 * MAX_SIXEL_DIMENSION) r.
+
+Lemma set_pixel_lenB x c line : x < MAX_SIXEL_DIMENSION -> Z.of_nat (length line) <= 4 * MAX_SIXEL_DIMENSION ->
+  Z.of_nat (length (set_pixel x c line)) <= 4 * MAX_SIXEL_DIMENSION.
+Proof.
+  intros Hx Hl. unfold set_pixel. destruct c as [[r g] b]. set (off := (Z.to_nat x * 4)%nat).
+  destruct (Nat.leb_spec (length line) off) as [Hle|Hgt].
+  - rewrite !app_length, firstn_length, skipn_length, resize_length. cbn [length]. subst off. unfold MAX_SIXEL_DIMENSION in *. lia.
+  - rewrite !app_length, firstn_length, skipn_length. cbn [length]. subst off. unfold MAX_SIXEL_DIMENSION in *. lia.
+Qed.
+
+Local Transparent plot.
+Lemma plot_InvB k : forall i mask x y last c r, x < MAX_SIXEL_DIMENSION -> InvB r -> InvB (plot k i mask x y last c r).
+Proof.
+  induction k as [|k IH]; intros i mask x y last c r Hx Hr; cbn [plot]; [exact Hr|].
+  destruct (Z.testbit mask i); [|apply IH; assumption].
+  destruct (last <=? y + i); [exact Hr|]. apply IH; [exact Hx|]. destruct Hr as [Hh Hf]. split.
+  - unfold height in *. rewrite upd_nth_length. exact Hh.
+  - apply upd_nth_Forall; [intros l Hl; apply set_pixel_lenB; assumption|exact Hf].
+Qed.
+Local Opaque plot.
+
+Lemma width_zeros_le r : Forall (fun l => Z.of_nat (length l) <= 4 * MAX_SIXEL_DIMENSION) r ->
+  Z.of_nat (length (zeros (Z.to_nat (width r) * 4))) <= 4 * MAX_SIXEL_DIMENSION.
+Proof.
+  intro Hf. unfold zeros. rewrite repeat_length. unfold width. destruct r as [|l t]; [unfold MAX_SIXEL_DIMENSION; cbn; lia|].
+  inversion Hf; subst. pose proof (Z.mul_div_le (Z.of_nat (length l)) 4 ltac:(lia)). pose proof (Z.div_pos (Z.of_nat (length l)) 4 ltac:(lia) ltac:(lia)). lia.
+Qed.
+
+Lemma translate_InvB s ch s' : InvB (rows s) -> translate s ch = Ok s' -> InvB (rows s').
+Proof.
+  intros [Hh Hr] H. unfold translate in H.
+  destruct (ch <? 63); [discriminate|]. destruct (length (pal s) =? 0)%nat; [discriminate|].
+  bind_inv H. bind_inv H. destruct (_ || _) eqn:EC; [discriminate|]. bind_inv H. inversion H; subst; clear H. cbn [rows set_cur set_rows].
+  apply orb_false_iff in EC. destruct EC as [EX EL]. apply Z.leb_gt in EX. apply Z.ltb_ge in EL.
+  match type of EL with ?ll <= _ => set (LL := ll) in * end.
+  apply plot_InvB; [exact EX|].
+  match goal with |- InvB (if ?b then _ else _) => destruct b end; [|split; assumption].
+  split.
+  - unfold height. rewrite resize_length. unfold MAX_SIXEL_DIMENSION in *. lia.
+  - apply resize_Forall; [exact Hr|apply width_zeros_le; exact Hr].
+Qed.
+
+Lemma parse_sixel_data_InvB s ch s' : InvB (rows s) -> parse_sixel_data s ch = Ok s' -> InvB (rows s').
+Proof.
+  intros Hr H. unfold parse_sixel_data in H.
+  repeat match type of H with (if ?b then _ else _) = _ => destruct b end;
+    try (inversion H; subst; exact Hr).
+  - bind_inv H. inversion H; subst. exact Hr.
+  - eapply translate_InvB; eassumption.
+Qed.
+
+Lemma repeat_data_InvB n : forall s ch s', InvB (rows s) -> repeat_data n s ch = Ok s' -> InvB (rows s').
+Proof.
+  induction n as [|n IH]; intros s ch s' Hr H; cbn [repeat_data] in H.
+  - inversion H; subst. exact Hr.
+  - bind_inv H. eapply IH; [|exact H]. eapply parse_sixel_data_InvB; eassumption.
+Qed.
+
+Lemma finish_size_InvB s s' : InvB (rows s) -> finish_size s = Ok s' -> InvB (rows s').
+Proof.
+  intros [Hh Hr] H. unfold finish_size in H. cbv zeta in H.
+  destruct ((length (nums s) <? 2)%nat || (4 <? length (nums s))%nat); [discriminate|].
+  destruct (nums s) as [|v [|h rest]]; try discriminate. destruct (existsb _ rest) eqn:EX; [discriminate|].
+  inversion H; subst; clear H. cbn [rows set_st]. unfold declare.
+  destruct rest as [|a [|b [|c t]]]; cbn [rows set_scale set_rows]; try (split; assumption).
+  - cbn [existsb] in EX. rewrite orb_false_r in EX. apply Z.ltb_ge in EX. split.
+    + unfold height. rewrite resize_length. unfold MAX_SIXEL_DIMENSION in *. lia.
+    + apply resize_Forall; [exact Hr|]. unfold MAX_SIXEL_DIMENSION. cbn [length]. lia.
+  - cbn [existsb] in EX. rewrite orb_false_r in EX. apply orb_false_iff in EX. destruct EX as [EA EB]. apply Z.ltb_ge in EA, EB. split.
+    + unfold height. rewrite resize_length. unfold MAX_SIXEL_DIMENSION in *. lia.
+    + apply resize_Forall; [exact Hr|]. unfold zeros. rewrite repeat_length. unfold MAX_SIXEL_DIMENSION in *. lia.
+Qed.
+
+Lemma parse_char_InvB s ch s' : InvB (rows s) -> parse_char hsl s ch = Ok s' -> InvB (rows s').
+Proof.
+  intros Hr H. unfold parse_char in H. destruct (st s).
+  - eapply parse_sixel_data_InvB; eassumption.
+  - destruct (is_digit ch); [inversion H; subst; exact Hr|].
+    destruct (ch =? 59); [inversion H; subst; exact Hr|].
+    bind_inv H. apply finish_color_rows in E. destruct E as (R & _ & _).
+    eapply parse_sixel_data_InvB; [|exact H]. rewrite R. exact Hr.
+  - destruct (is_digit ch); [inversion H; subst; exact Hr|].
+    destruct (ch =? 59); [inversion H; subst; exact Hr|].
+    bind_inv H. eapply parse_sixel_data_InvB; [|exact H]. eapply finish_size_InvB; eassumption.
+  - destruct (is_digit ch); [inversion H; subst; exact Hr|].
+    destruct (nums s) as [|i t]; [discriminate|]. destruct (MAX_SIXEL_DIMENSION <? i); [discriminate|].
+    bind_inv H. inversion H; subst. cbn [rows set_st]. eapply repeat_data_InvB; eassumption.
+Qed.
+
+Lemma parse_chars_InvB cs : forall s s', InvB (rows s) -> parse_chars hsl s cs = Ok s' -> InvB (rows s').
+Proof.
+  induction cs as [|c t IH]; intros s s' Hr H; cbn [parse_chars] in H.
+  - inversion H; subst. exact Hr.
+  - bind_inv H. eapply IH; [|exact H]. eapply parse_char_InvB; eassumption.
+Qed.
+
+Lemma max_len_le_B r : Forall (fun l => Z.of_nat (length l) <= 4 * MAX_SIXEL_DIMENSION) r -> Z.of_nat (max_len r) <= 4 * MAX_SIXEL_DIMENSION.
+Proof.
+  induction 1 as [|l t Hl Ht IH]; [unfold MAX_SIXEL_DIMENSION; cbn; lia|]. cbn [max_len fold_right]. fold (max_len t). lia.
+Qed.
+
+Lemma sixel_dims_bounded_proof pal0 vs hs data w h d :
+  parse_from hsl pal0 vs hs data = Ok (w, h, d) -> 0 <= w <= MAX_SIXEL_DIMENSION /\ 0 <= h <= MAX_SIXEL_DIMENSION.
+Proof.
+  intro H. unfold parse_from in H. bind_inv H. bind_inv H.
+  assert (HB : InvB (rows a0)).
+  { eapply parse_char_InvB; [|eassumption]. eapply parse_chars_InvB; [|eassumption]. split; [unfold height, MAX_SIXEL_DIMENSION; cbn; lia|constructor]. }
+  destruct HB as [Hh Hf]. pose proof (max_len_le_B _ Hf) as HM.
+  unfold assemble in H. inversion H; subst; clear H. unfold height in *.
+  pose proof (Z.div_pos (Z.of_nat (max_len (rows a0))) 4 ltac:(lia) ltac:(lia)).
+  assert (Z.of_nat (max_len (rows a0)) / 4 <= MAX_SIXEL_DIMENSION) by (apply Z.div_le_upper_bound; lia).
+  lia.
 Qed.
 
 End S.
